@@ -22,7 +22,10 @@ CLAIM = dict(
          "number of records whose frames lie completely within k bytes (no complete record skipped, none invented, "
          "none partly filled), and then stops with EOF (frame boundary / inside a 4-byte length), 'incomplete input' "
          "(inside a frame body; msgpack prefix lemma M5: no proper prefix of an encoding decodes) or 'not a record "
-         "stream' (inside the header frame); at or past the end everything is yielded and the end is clean. Also the "
+         "stream' (inside the header frame); at or past the end everything is yielded and the end is clean. "
+         "C04_failing_or_short_write: for ANY chunking of the stream into write calls (the implementation's own, two "
+         "calls per frame, is one: C04_writeCalls), a call that accepts only j of its bytes (0 = failed) after which "
+         "nothing is written leaves exactly such a prefix, with the same conclusion. Also the "
          "frame-level theorems (splitting inverts framing for every frame list and cut) and M1. Tie: length format / "
          "header length / short-length-is-EOF regenerated from stream.py; the model reader is compared with "
          "RecordStreamReader on EVERY cut of every generated stream; real-code oracle: records yielded = written "
@@ -41,7 +44,9 @@ RULE = ("one case = one generated stream (3-10 records incl. nested/grouped, 200
         "distribution counts reader runs. Non-trivial = stream with >=3 record frames and >=1 descriptor frame after the "
         "first record; distinct by hash of the case.")
 TRUSTED = ["zlib/gzip truncation behaviour (hypothesis, exercised on every cut)", "msgpack C unpacker on truncated input"]
-ASSUMPTIONS = ["fault model: the file on disk is a byte prefix of what the writer produced (crash, failing or short write)"]
+ASSUMPTIONS = ["fault model: the writer's calls on its file object append, in order, a chunking of the stream it produces, and "
+               "after a crash / failing / short call nothing more is written (then the disk content is a byte prefix: proved, "
+               "C04_failing_or_short_write; that the implementation's calls are such a chunking is checked on every fault index)"]
 
 
 def EXHAUSTIVE(tier):
